@@ -3,7 +3,7 @@ from harness import common, nsoracles, sysimg, syslevel, sysprops
 from harness.props import udfleaf
 
 MODULE = 'C10'
-RECIPES = ['udf_fid_cross', 'udf_fid_exact', 'udf_symlinks']
+RECIPES = ['udf_fid_cross', 'udf_fid_exact', 'udf_symlinks', 'udf_fid_churn']
 
 
 def oracle(b, report):
